@@ -1,6 +1,6 @@
 """C12 - HTML, JSON, Markdown and text outputs all render and carry the same data.
 
-Exhaustive: every set of <= K transactions over a 22-transaction alphabet (merchant names that differ only in
+Exhaustive: every set of <= K transactions over a 23-transaction alphabet (merchant names that differ only in
 quotes, spaces or underscores; descriptions containing </script>, quotes, backslashes, the template
 placeholders, braces, non-ASCII; refunds, income with negative amount, transfers in/out, investment, a merchant
 netting to zero; extra fields) x {no views, views} is analysed by the real analyze_transactions and rendered by
@@ -27,7 +27,7 @@ from mc.ref import money
 
 PROPERTY = "C12"
 LEVEL = "exploration"
-RULE = ("cases = every subset of 1..K transactions (K=3 quick, 4 thorough) of a 22-transaction alphabet x {without views, with two views}; each case "
+RULE = ("cases = every subset of 1..K transactions (K=3 quick, 4 thorough) of a 23-transaction alphabet x {without views, with two views}; each case "
         "renders 11 outputs (2 HTML modes, JSON x3, Markdown x3 verbosities, text summary, views summary, plus the separate data file). "
         "non-trivial = subsets with >=2 merchants whose derived ids collide, or with a description containing markup / placeholder text, or mixing "
         ">=2 money buckets; subsets are distinct by construction")
@@ -63,6 +63,8 @@ ALPHA = [
     # closing script tags in other letter cases / with blanks, and an HTML comment opener
     ("Shop", "WEB </SCRIPT> x </Script > <!-- y", 7.25, ["</ScRiPt>"], D(2025, 1, 23), FOOD, {"k": "</SCRIPT\n>"}),
     # one merchant spanning two categories whose own total is negative while one of its categories is positive
+    # extra field values that are falsy, or not JSON-native (a date from `field: when = date`)
+    ("Fld", "falsy fields", 12.25, [], D(2025, 1, 25), FOOD, {"z": 0, "f": False, "e": "", "when": dt.date(2025, 1, 25)}),
     ("Span", "prime charge", 40.0, [], D(2025, 1, 24), FOOD, None),
     ("Span", "big refund", -100.0, [], D(2025, 2, 24), BILLS, None),
 ]
@@ -136,17 +138,31 @@ def check_payload(data, stats, txns, label, viol):
                                                                                         "present": sorted(x for x in merchants if x)}})
     for name in set(merchants) - exp_m:
         viol.append({"kind": "merchant-not-exactly-once-in-html-data", "detail": {"output": label, "merchant": name, "occurrences": "unexpected"}})
+    # a date-valued extra field must arrive as some non-empty text; how a date is written is the report's business
+    date_keys = {k for t in txns for k, v in (t.get("extra_fields") or {}).items() if hasattr(v, "isoformat")}
+
+    def _fields(ef, from_report):
+        if not ef:
+            return json.dumps(ef, sort_keys=True)
+        out = {}
+        for k, v in ef.items():
+            if k in date_keys:
+                out[k] = "<date>" if (hasattr(v, "isoformat") or (from_report and isinstance(v, str) and v.strip())) else v
+            else:
+                out[k] = v
+        return json.dumps(out, sort_keys=True)
+
     got_t = []
     for name, ms in merchants.items():
         for m in ms:
             for t in m.get("transactions", []):
                 got_t.append((name, t.get("description"), t.get("amount"), t.get("month"), tuple(t.get("tags", [])), t.get("source"),
-                              json.dumps(t.get("extra_fields"), sort_keys=True)))
+                              _fields(t.get("extra_fields"), True)))
     exp_t = []
     for t in txns:
         eff = abs(t["amount"]) if ({x.lower() for x in t["tags"]} & {"income", "investment"}) else t["amount"]
         exp_t.append((t["merchant"], t["raw_description"], eff, t["date"].strftime("%Y-%m"), tuple(t["tags"]), t["source"],
-                      json.dumps(t.get("extra_fields"), sort_keys=True)))
+                      _fields(t.get("extra_fields"), False)))
     if sorted(got_t, key=repr) != sorted(exp_t, key=repr):
         missing = [x for x in exp_t if x not in got_t]
         extra = [x for x in got_t if x not in exp_t]
